@@ -26,6 +26,18 @@ from pathlib import Path
 from src.core.types import Violation
 
 
+def _show(value: int | float) -> str:
+    """Text of a value for messages.
+
+    Integers beyond the interpreter's decimal conversion limit (a hexadecimal literal with
+    thousands of digits) are written in hexadecimal, which has no such limit.
+    """
+    try:
+        return str(value)
+    except ValueError:
+        return hex(int(value))
+
+
 class ViolationBuilder:
     """Builds violations for magic number detections."""
 
@@ -84,10 +96,11 @@ class ViolationBuilder:
         Returns:
             Violation object with details about the magic number
         """
-        message = f"Magic number {value} should be a named constant"
+        value_text = _show(value)
+        message = f"Magic number {value_text} should be a named constant"
 
         suggestion = (
-            f"Extract {value} to a named constant (e.g., const CONSTANT_NAME: i32 = {value})"
+            f"Extract {value_text} to a named constant (e.g., const CONSTANT_NAME: i32 = {value_text})"
         )
 
         return Violation(
@@ -115,9 +128,10 @@ class ViolationBuilder:
         Returns:
             Violation object with details about the magic number
         """
-        message = f"Magic number {value} should be a named constant"
+        value_text = _show(value)
+        message = f"Magic number {value_text} should be a named constant"
 
-        suggestion = f"Extract {value} to a named constant (e.g., const CONSTANT_NAME = {value})"
+        suggestion = f"Extract {value_text} to a named constant (e.g., const CONSTANT_NAME = {value_text})"
 
         return Violation(
             rule_id=self.rule_id,
